@@ -97,6 +97,23 @@ MUTANTS += [
     ("c04-block-header-digits", ["C04"], [(R, "            let len_digits = len.ilog10() + 1;", "            let len_digits = len.ilog10();")]),
 ]
 
+
+# round 4: the parser combinators themselves (rule <Cxx>-PR), the fields of the parsed call (C01-Q, C02-F), state inventory by type
+MUTANTS += [
+    ("prim-take_while-pred-not-negated", ["C01", "C03", "C05", "C08", "C11", "C12"], [(P, "position(|&byte| !pred(byte))", "position(|&byte| pred(byte))")]),
+    ("prim-satisfy-ignores-pred", ["C01", "C03", "C05", "C08", "C11", "C12"], [(P, "Some(&byte) if pred(byte) => Ok((&i[1..], byte)),", "Some(&byte) if pred(byte) || true => Ok((&i[1..], byte)),")]),
+    ("prim-take_while-none-swapped", ["C01", "C03", "C05", "C08", "C11", "C12"], [(P, "None => Ok((&[], input)),", "None => Ok((input, &[])),")]),
+    ("prim-take_while-short-by-one", ["C01", "C03", "C05", "C08", "C11", "C12"], [(P, "Some(pos) => Ok((&input[pos..], &input[..pos])),", "Some(pos) => Ok((&input[pos..], &input[..pos.saturating_sub(1)])),")]),
+    ("prim-tag-ge", ["C01", "C03", "C05", "C08", "C11", "C12"], [(P, "satisfy(move |byte| byte == tag)", "satisfy(move |byte| byte >= tag)")]),
+    ("prim-optional-input-moved", ["C01", "C03", "C05", "C08", "C11", "C12"], [(P, ".unwrap_or((input, None)))", ".unwrap_or((&input[..0], None)))")]),
+    ("prim-satisfy-empty-is-soft", ["C01", "C03", "C05", "C08", "C11", "C12"], [(P, "        None => Err(ParseError::Incomplete),\n    }\n}\n\n/// Makes a parser optional.", "        None => Err(Error::InvalidCharacter)?,\n    }\n}\n\n/// Makes a parser optional.")]),
+    ("c02-terminated-swapped", ["C02"], [(P, "        .map(|(i, _)| (i, true))\n        .or_else(|_| tag(b';')(input).map(|(i, _)| (i, false)))?;", "        .map(|(i, _)| (i, false))\n        .or_else(|_| tag(b';')(input).map(|(i, _)| (i, true)))?;")]),
+    ("c01-query-swapped", ["C01"], [(P, "        .map(|(i, _)| (i, true))\n        .unwrap_or_else(|_| (input, false));", "        .map(|(i, _)| (i, false))\n        .unwrap_or_else(|_| (input, true));")]),
+    ("c06-flag-carried-across-messages", ["C06"], [(I, "        let mut read_offset = 0;\n    \n        loop {", "        let mut read_offset = 0;\n        let mut seen_any = false;\n    \n        loop {"),
+                                                   (I, "                let remaining = self.run(data, &mut res_buf).await;\n", "                let remaining = self.run(data, &mut res_buf).await;\n                if !seen_any { seen_any = true; }\n")]),
+    ("c05-LF-count-plus-two", ["C05"], [(P, "    Ok((i2, &input[..res.len() + 1]))\n}\n\n/// Parses a program mnemonic", "    Ok((i2, &input[..res.len() + 2]))\n}\n\n/// Parses a program mnemonic")]),
+]
+
 ALL = ["C%02d" % i for i in range(1, 15)]
 
 BENIGN = [
